@@ -7,6 +7,9 @@
 #include "common/vh.h"
 #include "fk_oracle.h"
 
+// like vh::Case::expect, but the detail text is only built when the comparison fails
+#define C20_EXPECT(c, cond, check, sig, detail) ((cond) ? ((c).count(std::string("cmp.") + (check)), true) : (c).expect(false, (check), (sig), (detail)))
+
 namespace c20 {
 
 using Vertex = std::vector<int>;
@@ -55,13 +58,13 @@ inline bool vertex_checks(vh::Case& c, const PR& s, std::size_t d, const std::st
   const std::string sig = origin + "," + sg(d, dim);
   std::vector<Vertex> raw = raw_vertices(s);
   c.count("obs.vertex_range");
-  if (!c.expect(raw.size() == dim + 1, "vertices.count", sig, show(s) + " enumerates " + vh::str(raw.size()) + " vertices, dimension()+1 = " + vh::str(dim + 1))) return false;
-  for (auto& v : raw) if (!c.expect(v.size() == d, "vertices.ambient_dimension", sig, show(s) + " vertex of size " + vh::str(v.size()))) return false;
+  if (!C20_EXPECT(c, raw.size() == dim + 1, "vertices.count", sig, show(s) + " enumerates " + vh::str(raw.size()) + " vertices, dimension()+1 = " + vh::str(dim + 1))) return false;
+  for (auto& v : raw) if (!C20_EXPECT(c, v.size() == d, "vertices.ambient_dimension", sig, show(s) + " vertex of size " + vh::str(v.size()))) return false;
   V = fk::normalized(raw);
-  if (!c.expect(fk::all_distinct(V), "vertices.distinct", sig, show(s) + " -> " + fk::show(V))) return false;
-  if (!c.expect(fk::is_simplex(V), "vertices.valid_simplex", sig, show(s) + " -> " + fk::show(V) + " is not a chain in a unit cube")) return false;
-  if (model && !c.expect(V == *model, "vertices.match_model", sig, show(s) + " -> " + fk::show(V) + " expected " + fk::show(*model))) return false;
-  if (!c.expect(s.vertex() == V.front(), "rep.vertex_lexmin", sig, show(s) + ": vertex() is not the lexicographically minimal vertex " + fk::show(V.front()))) return false;
+  if (!C20_EXPECT(c, fk::all_distinct(V), "vertices.distinct", sig, show(s) + " -> " + fk::show(V))) return false;
+  if (!C20_EXPECT(c, fk::is_simplex(V), "vertices.valid_simplex", sig, show(s) + " -> " + fk::show(V) + " is not a chain in a unit cube")) return false;
+  if (model && !C20_EXPECT(c, V == *model, "vertices.match_model", sig, show(s) + " -> " + fk::show(V) + " expected " + fk::show(*model))) return false;
+  if (!C20_EXPECT(c, s.vertex() == V.front(), "rep.vertex_lexmin", sig, show(s) + ": vertex() is not the lexicographically minimal vertex " + fk::show(V.front()))) return false;
   return true;
 }
 
@@ -76,28 +79,28 @@ inline bool face_checks(vh::Case& c, const PR& s, std::size_t d, const std::stri
     c.count("obs.faces_listed", faces.size());
     std::set<fk::Simplex> want, got;
     fk::subsets_of_size(V, k + 1, want);
-    if (!c.expect(faces.size() == fk::binom((unsigned)dim + 1, (unsigned)k + 1), "faces.count", sig,
+    if (!C20_EXPECT(c, faces.size() == fk::binom((unsigned)dim + 1, (unsigned)k + 1), "faces.count", sig,
                   show(s) + " face_range(" + vh::str(k) + ") lists " + vh::str(faces.size()) + " faces")) return false;
     for (auto& f : faces) {
-      if (!c.expect(f.dimension() == k, "faces.dimension", sig, show(f) + " has dimension " + vh::str(f.dimension()))) return false;
+      if (!C20_EXPECT(c, f.dimension() == k, "faces.dimension", sig, show(f) + " has dimension " + vh::str(f.dimension()))) return false;
       std::vector<Vertex> raw = raw_vertices(f);
       fk::Simplex Vf = fk::normalized(raw);
-      if (!c.expect(raw.size() == k + 1 && fk::all_distinct(Vf), "faces.vertices_distinct", sig, show(f) + " -> " + fk::show(Vf))) return false;
-      if (!c.expect(want.count(Vf) == 1, "faces.set_equal", sig + ",not_a_subset", show(s) + " lists face " + show(f) + " -> " + fk::show(Vf) + " which is not a vertex subset of " + fk::show(V))) return false;
-      if (!c.expect(got.insert(Vf).second, "faces.set_equal", sig + ",duplicate", show(s) + " lists face " + fk::show(Vf) + " twice")) return false;
+      if (!C20_EXPECT(c, raw.size() == k + 1 && fk::all_distinct(Vf), "faces.vertices_distinct", sig, show(f) + " -> " + fk::show(Vf))) return false;
+      if (!C20_EXPECT(c, want.count(Vf) == 1, "faces.set_equal", sig + ",not_a_subset", show(s) + " lists face " + show(f) + " -> " + fk::show(Vf) + " which is not a vertex subset of " + fk::show(V))) return false;
+      if (!C20_EXPECT(c, got.insert(Vf).second, "faces.set_equal", sig + ",duplicate", show(s) + " lists face " + fk::show(Vf) + " twice")) return false;
       c.count("obs.is_face_of");
-      if (!c.expect(f.is_face_of(s), "faces.is_face_of", sig, show(f) + " listed by face_range of " + show(s) + " but is_face_of says false")) return false;
+      if (!C20_EXPECT(c, f.is_face_of(s), "faces.is_face_of", sig, show(f) + " listed by face_range of " + show(s) + " but is_face_of says false")) return false;
       if (k < dim) {
         c.count("obs.is_face_of");
-        if (!c.expect(!s.is_face_of(f), "is_face_of.matches_subset", sig + ",want=false,larger_in_smaller", show(s) + ".is_face_of(" + show(f) + ") is true")) return false;
+        if (!C20_EXPECT(c, !s.is_face_of(f), "is_face_of.matches_subset", sig + ",want=false,larger_in_smaller", show(s) + ".is_face_of(" + show(f) + ") is true")) return false;
       }
     }
-    if (!c.expect(got == want, "faces.set_equal", sig + ",missing", show(s) + " face_range(" + vh::str(k) + ") misses a subset")) return false;
+    if (!C20_EXPECT(c, got == want, "faces.set_equal", sig + ",missing", show(s) + " face_range(" + vh::str(k) + ") misses a subset")) return false;
     if (k + 1 == dim) {
       std::set<fk::Simplex> fg;
       for (auto& f : s.facet_range()) fg.insert(fk::normalized(raw_vertices(f)));
       c.count("obs.facet_range");
-      if (!c.expect(fg == want, "facets.set_equal", sig, show(s) + " facet_range differs from the " + vh::str(dim) + "-subsets")) return false;
+      if (!C20_EXPECT(c, fg == want, "facets.set_equal", sig, show(s) + " facet_range differs from the " + vh::str(dim) + "-subsets")) return false;
     }
     if (all_faces) for (auto& f : faces) all_faces->push_back(f);
   }
@@ -122,7 +125,7 @@ inline bool coface_checks(vh::Case& c, const PR& s, std::size_t d, const std::st
     if (expect_n > o.cap) { c.count("skip.coface_set_too_large"); continue; }
     std::set<fk::Simplex> want;
     fk::cofaces(V, l, want);
-    if (!c.expect(want.size() == expect_n, "oracle.selfcheck", "coface_count_formula", "oracle enumerates " + vh::str(want.size()) + " cofaces, closed form says " + vh::str(expect_n) + " for " + fk::show(V) + " l=" + vh::str(l))) return false;
+    if (!C20_EXPECT(c, want.size() == expect_n, "oracle.selfcheck", "coface_count_formula", "oracle enumerates " + vh::str(want.size()) + " cofaces, closed form says " + vh::str(expect_n) + " for " + fk::show(V) + " l=" + vh::str(l))) return false;
     std::vector<PR> cof;
     for (auto& x : s.coface_range(l)) {
       cof.push_back(x);
@@ -133,15 +136,15 @@ inline bool coface_checks(vh::Case& c, const PR& s, std::size_t d, const std::st
     if (l > dim && expect_n > 1) c.count("obs.coface_range.proper_nontrivial");
     std::set<fk::Simplex> got;
     for (auto& x : cof) {
-      if (!c.expect(x.dimension() == l, "cofaces.dimension", sig, show(x) + " listed by coface_range(" + vh::str(l) + ") of " + show(s) + " has dimension " + vh::str(x.dimension()))) return false;
-      if (!c.expect(wellformed(x, d), "cofaces.wellformed", sig, show(x) + " listed as coface of " + show(s) + " is not an ordered partition of 0..d with d in the last part")) return false;
+      if (!C20_EXPECT(c, x.dimension() == l, "cofaces.dimension", sig, show(x) + " listed by coface_range(" + vh::str(l) + ") of " + show(s) + " has dimension " + vh::str(x.dimension()))) return false;
+      if (!C20_EXPECT(c, wellformed(x, d), "cofaces.wellformed", sig, show(x) + " listed as coface of " + show(s) + " is not an ordered partition of 0..d with d in the last part")) return false;
       std::vector<Vertex> raw = raw_vertices(x);
       fk::Simplex Vx = fk::normalized(raw);
-      if (!c.expect(raw.size() == l + 1 && fk::is_simplex(Vx), "cofaces.valid_simplex", sig, show(x) + " -> " + fk::show(Vx))) return false;
-      if (!c.expect(fk::subset(V, Vx), "cofaces.contains", sig, "coface " + show(x) + " -> " + fk::show(Vx) + " does not contain " + fk::show(V))) return false;
+      if (!C20_EXPECT(c, raw.size() == l + 1 && fk::is_simplex(Vx), "cofaces.valid_simplex", sig, show(x) + " -> " + fk::show(Vx))) return false;
+      if (!C20_EXPECT(c, fk::subset(V, Vx), "cofaces.contains", sig, "coface " + show(x) + " -> " + fk::show(Vx) + " does not contain " + fk::show(V))) return false;
       c.count("obs.is_face_of");
-      if (!c.expect(s.is_face_of(x), "cofaces.is_face_of", sig, show(s) + ".is_face_of(" + show(x) + ") is false for a listed coface")) return false;
-      if (!c.expect(got.insert(Vx).second, "cofaces.set_equal", sig + ",duplicate", "coface " + fk::show(Vx) + " of " + show(s) + " listed twice")) return false;
+      if (!C20_EXPECT(c, s.is_face_of(x), "cofaces.is_face_of", sig, show(s) + ".is_face_of(" + show(x) + ") is false for a listed coface")) return false;
+      if (!C20_EXPECT(c, got.insert(Vx).second, "cofaces.set_equal", sig + ",duplicate", "coface " + fk::show(Vx) + " of " + show(s) + " listed twice")) return false;
     }
     if (got != want) {
       std::string det = show(s) + " coface_range(" + vh::str(l) + "): listed " + vh::str(got.size()) + ", oracle " + vh::str(want.size());
@@ -157,7 +160,7 @@ inline bool coface_checks(vh::Case& c, const PR& s, std::size_t d, const std::st
       std::set<fk::Simplex> cg;
       for (auto& x : s.cofacet_range()) { cg.insert(fk::normalized(raw_vertices(x))); if (cg.size() > 4 * expect_n + 16) break; }
       c.count("obs.cofacet_range");
-      if (!c.expect(cg == want, "cofacets.set_equal", sig, show(s) + " cofacet_range differs from the oracle's cofacets")) return false;
+      if (!C20_EXPECT(c, cg == want, "cofacets.set_equal", sig, show(s) + " cofacet_range differs from the oracle's cofacets")) return false;
     }
     // converse: s is listed among the dim-faces of each listed coface
     std::size_t stride = std::max<std::size_t>(1, cof.size() / std::max<std::size_t>(1, o.converse_sample));
@@ -165,7 +168,7 @@ inline bool coface_checks(vh::Case& c, const PR& s, std::size_t d, const std::st
       bool found = false;
       for (auto& f : cof[i].face_range(dim)) if (fk::normalized(raw_vertices(f)) == V) found = true;
       c.count("obs.converse.face_of_coface");
-      if (!c.expect(found, "converse.face_of_coface", sig, show(s) + " is not among face_range(" + vh::str(dim) + ") of its listed coface " + show(cof[i]))) return false;
+      if (!C20_EXPECT(c, found, "converse.face_of_coface", sig, show(s) + " is not among face_range(" + vh::str(dim) + ") of its listed coface " + show(cof[i]))) return false;
       if (sample_out && sample_out->size() < 64 && c.rng.chance(1, 4)) sample_out->push_back(cof[i]);
     }
   }
@@ -187,7 +190,7 @@ inline bool coface_of_face_checks(vh::Case& c, const PR& s, std::size_t d, const
     std::size_t n = 0;
     for (auto& x : f.coface_range(dim)) { if (fk::normalized(raw_vertices(x)) == V) found = true; if (++n > 4 * o.cap + 16) break; }
     c.count("obs.converse.coface_of_face");
-    if (!c.expect(found, "converse.coface_of_face", origin + "," + sg(d, dim) + ",k=" + std::to_string(f.dimension()),
+    if (!C20_EXPECT(c, found, "converse.coface_of_face", origin + "," + sg(d, dim) + ",k=" + std::to_string(f.dimension()),
                   show(s) + " is not among coface_range(" + vh::str(dim) + ") of its listed face " + show(f))) return false;
   }
   return true;
@@ -199,7 +202,7 @@ inline bool is_face_of_check(vh::Case& c, const PR& a, const fk::Simplex& Va, co
   bool got = a.is_face_of(b);
   c.count("obs.is_face_of");
   c.count(want ? "obs.is_face_of.want_true" : "obs.is_face_of.want_false");
-  return c.expect(got == want, "is_face_of.matches_subset", "d=" + std::to_string(d) + ",want=" + (want ? "true" : "false") + "," + relation,
+  return C20_EXPECT(c, got == want, "is_face_of.matches_subset", "d=" + std::to_string(d) + ",want=" + (want ? "true" : "false") + "," + relation,
                   show(a) + ".is_face_of(" + show(b) + ") = " + vh::str(got) + "; vertex sets " + fk::show(Va) + " vs " + fk::show(Vb));
 }
 
